@@ -6,6 +6,7 @@ import (
 	"sort"
 	"strings"
 	"testing"
+	"time"
 
 	sdk "github.com/cosmos/cosmos-sdk/types"
 	"pgregory.net/rapid"
@@ -23,12 +24,12 @@ import (
 
 func TestMain(m *testing.M) { drv.Main(m) }
 
-const rule = "a world of 4-6 pools (balancer, stableswap, concentrated) over 4 shared denoms with generated reserves, spread factors, default and direction-specific per-pair taker fees, optional whitelisted sender and a prefix of random swaps; then one routed message of 1-4 hops (repeated pools allowed and classified) exact-in / exact-out / split-in; oracle on branches of the same state: (composition) routed execution == the hops executed one after another as single-hop messages - final amounts, trader/pool/fee-collector balances and the digest of all stores; split route == its legs as separate messages; (estimate) for routes visiting each pool at most once and a non-whitelisted sender the estimate query == executed amount and leaves the digest unchanged; (limits) with the true amount T learned on a branch, min-out/max-in in {T-1, T, T+1, far}: success implies received >= min and total debit (taker fees included) <= max, a violated limit must fail; non-trivial = >= 2 hops over >= 2 pool types with a non-zero taker fee; distinct by scenario hash"
+const rule = "a world of 4-6 pools (balancer - a third of them weight-changing, with the clock advanced into or past the change window before the routed message - stableswap, concentrated) over 4 shared denoms with generated reserves, spread factors, default and direction-specific per-pair taker fees, optional whitelisted sender and a prefix of random swaps; then one routed message of 1-4 hops (repeated pools allowed and classified) exact-in / exact-out / split-in; oracle on branches of the same state: (composition) routed execution == the hops executed one after another as single-hop messages - final amounts, trader/pool/fee-collector balances and the digest of all stores; split route == its legs as separate messages; (estimate) for routes visiting each pool at most once and a non-whitelisted sender the estimate query == executed amount and leaves the digest unchanged; (limits) with the true amount T learned on a branch, min-out/max-in in {T-1, T, T+1, far}: success implies received >= min and total debit (taker fees included) <= max, a violated limit must fail; non-trivial = >= 2 hops over >= 2 pool types with a non-zero taker fee; distinct by scenario hash"
 
 var denoms = []string{"aaa", "bbb", "ccc", "ddd"}
 
 func coin(d string, a *big.Int) sdk.Coin { return sdk.NewCoin(d, osmomath.NewIntFromBigInt(a)) }
-func ci(d string, a int64) sdk.Coin     { return sdk.NewInt64Coin(d, a) }
+func ci(d string, a int64) sdk.Coin      { return sdk.NewInt64Coin(d, a) }
 
 type pinfo struct {
 	id     uint64
@@ -39,6 +40,7 @@ type pinfo struct {
 type world struct {
 	c     *chain.Chain
 	pools []pinfo
+	lbp   bool // a weight-changing balancer pool exists
 }
 
 func bigPow(e int) *big.Int { return new(big.Int).Exp(big.NewInt(10), big.NewInt(int64(e)), nil) }
@@ -95,7 +97,19 @@ func build(rt *rapid.T, t *testing.T) *world {
 					}
 				}
 			}
-			msg := balancer.NewMsgCreateBalancerPool(creator, balancer.PoolParams{SwapFee: fee, ExitFee: osmomath.ZeroDec()}, assets, "")
+			params := balancer.PoolParams{SwapFee: fee, ExitFee: osmomath.ZeroDec()}
+			if rapid.IntRange(0, 2).Draw(rt, "weightChanging") == 0 {
+				// weights moving linearly to generated targets from now on; the world's clock is advanced below, so the routed
+				// message meets the pool somewhere inside (or after) its change window
+				var target []balancer.PoolAsset
+				for _, as := range assets {
+					target = append(target, balancer.PoolAsset{Weight: osmomath.NewInt(rapid.Int64Range(1, 100).Draw(rt, "tw"+as.Token.Denom)), Token: as.Token})
+				}
+				params.SmoothWeightChangeParams = &balancer.SmoothWeightChangeParams{StartTime: c.Ctx.BlockTime(),
+					Duration: time.Duration(rapid.SampledFrom([]int64{int64(time.Hour), int64(24 * time.Hour)}).Draw(rt, "lbpDuration")), TargetPoolWeights: target}
+				w.lbp = true
+			}
+			msg := balancer.NewMsgCreateBalancerPool(creator, params, assets, "")
 			if r := c.Exec(&msg); !r.OK() {
 				rt.Fatalf("harness: create balancer pool: %v", r.Err)
 			}
@@ -143,6 +157,10 @@ func build(rt *rapid.T, t *testing.T) *world {
 		if a != b {
 			c.App.PoolManagerKeeper.SetDenomPairTakerFee(c.Ctx, a, b, osmomath.NewDecWithPrec(rapid.Int64Range(0, 300).Draw(rt, "ovBp"), 4))
 		}
+	}
+	// the clock moves on after the world is built (weight-changing pools have been written at their start time only)
+	if w.lbp {
+		c.Advance(time.Duration(rapid.SampledFrom([]int64{int64(time.Second), int64(20 * time.Minute), int64(time.Hour), int64(9 * time.Hour), int64(48 * time.Hour)}).Draw(rt, "clock")))
 	}
 	return w
 }
